@@ -71,9 +71,16 @@ class WcBase(plumpy.WorkChain):
         self.set_status('S%d' % i)
         self._rec.fire('step', self, i)
         toctx = {}
+        for idx in st.get('pre', ()):
+            # a child launched now but handed to the context only by a later step
+            child = self.launch(ChildProc, inputs={'idx': idx})
+            env.children[idx] = child
+            child.future().add_done_callback(lambda _f, idx=idx: env.done_order.append(['c', idx]))
         for key, idx, kind, how in st['reg']:
             if kind == 'fut':
                 aw = env.futures[idx]
+            elif kind == 'oldchild':
+                aw = env.children[idx]
             else:
                 aw = self.launch(ChildProc, inputs={'idx': idx})
                 env.children[idx] = aw
@@ -117,7 +124,7 @@ def wc_class(wcprogram):
 
 
 def nfutures(wcprogram):
-    idxs = [idx for st in wcprogram['steps'] for _k, idx, _kind, _h in st['reg']]
+    idxs = [idx for st in wcprogram['steps'] for _k, idx, _kind, _h in st['reg']] + [i for st in wcprogram['steps'] for i in st.get('pre', ())]
     return (max(idxs) + 1) if idxs else 0
 
 
@@ -210,7 +217,7 @@ class WcRun(lifecycle.Run):
                 for _key, idx, kind, _how in st['reg']:
                     if kind == 'fut' and not self.futures[idx].done():
                         return ['complete', idx, ['value', 'auto-v%d' % idx]]
-                    if kind == 'child' and idx in self.children and not self.children[idx].has_terminated():
+                    if kind in ('child', 'oldchild') and idx in self.children and not self.children[idx].has_terminated():
                         if self.children[idx].paused:
                             continue
                         return ['child', idx, 'resume']
